@@ -431,6 +431,59 @@ def r1_witness_fold(L, repo, spec):
     L.floor("C13.R1", "validate() witnesses folded", n, 150)
 
 
+def r6_accepted_encodes(L, repo, spec):
+    """R6 ('encoding is refused for EXACTLY the messages that do not validate' - the encode side): for one valid message
+    per scenario, and for variants in the fields validate() does not look at for that kind of message (modulation / TSC
+    fields of a NOPE indication or of a version-0 message, C/I of a version-0 message - set, as a re-used message object
+    has them, or None), validate() is folded and, when it accepts, gen_msg() is folded as well: it must produce a
+    datagram, not raise.  A check that lives only in the encoder (gen_mts, append_hdr_to, append_burst_to) refuses
+    messages that validate."""
+    from consteval import Ev, Raised, Arr
+    mod = repo.mod("data_msg")
+    mci = repo.need_class("data_msg", "Modulation")
+    members = {m.name: m for m in Ev(repo, mod).enum_members(mci)}
+    G = members.get("ModGMSK")
+    P8 = members.get("Mod8PSK")
+    wit = []
+    for ver in (0, 1):
+        wit.append(("TxMsg", "Tx v%d" % ver, {"ver": ver, "fn": 0, "tn": 7, "pwr": 255, "burst": bytearray([1, 0] * 74)}))
+    for extra_t, extra in (("", {}), (", modulation / TSC / C/I fields left over from an earlier use", {"mod_type": P8, "tsc_set": 1, "tsc": 7, "ci": -30, "nope_ind": False}),
+                           (", C/I and TSC fields None", {"mod_type": G, "tsc_set": None, "tsc": None, "ci": None})):
+        wit.append(("RxMsg", "Rx v0" + extra_t, dict({"ver": 0, "fn": 2715647, "tn": 0, "rssi": -47, "toa256": 32767, "burst": Arr("b", [127] * 148)}, **extra)))
+    for extra_t, extra in (("", {"mod_type": G}), (", TSC fields left over from an earlier use", {"mod_type": P8, "tsc_set": 1, "tsc": 7}),
+                           (", TSC fields and modulation None", {"mod_type": None, "tsc_set": None, "tsc": None})):
+        wit.append(("RxMsg", "Rx v1 NOPE" + extra_t, dict({"ver": 1, "fn": 1000, "tn": 3, "rssi": -120, "toa256": -32768, "ci": 1280, "nope_ind": True, "burst": None}, **extra)))
+    for mname, m in sorted(members.items()):
+        bl = m.attrs.get("bl")
+        if isinstance(bl, int):
+            wit.append(("RxMsg", "Rx v1 burst/%s" % mname, {"ver": 1, "fn": 42, "tn": 1, "rssi": -80, "toa256": -1, "ci": -1280, "nope_ind": False, "mod_type": m,
+                                                            "tsc_set": 0, "tsc": 7, "burst": Arr("b", [-127] * bl)}))
+    n = 0
+    for cls, title, flds in wit:
+        ci = repo.need_class("data_msg", cls)
+        e = Ev(repo, ci.mod, env={"self." + k: v for k, v in flds.items()}, self_cls=ci)
+        e.ignore_calls = ("log.", "logging.")
+        c, v = repo.find_method(ci, "validate")
+        try:
+            e.call_func(v, c.mod, [("self", "<self>")], self_cls=ci, writeback=False)
+        except Raised:
+            continue            # not accepted: R1's matter
+        except Unknown as ex:
+            raise AnalysisError("validate() does not fold on a witness: %s" % ex)
+        c2, g = repo.find_method(ci, "gen_msg")
+        try:
+            e.call_func(g, c2.mod, e._bindargs(g, ["<self>"], {}), self_cls=ci, writeback=False)
+            got = "a datagram"
+        except Raised as ex:
+            got = "raises %s" % ex.cls
+        except Unknown as ex:
+            raise AnalysisError("gen_msg() does not fold on a witness: %s" % ex)
+        n += 1
+        L.fn(F, cls + ".gen_msg")
+        L.require("C13.R6", F, cls + ".gen_msg", "%s validates: gen_msg() produces a datagram" % title, "a datagram", got, line=g.lineno)
+    L.floor("C13.R6", "validated witnesses encoded", n, 10)
+
+
 def _r1_stage(L, repo, spec):
     try:
         return r1_r2(L, repo, spec)
@@ -448,3 +501,4 @@ def run(L, tier):
     L.stage(r3_validate_first, L, repo)
     L.stage(r4_send, L, repo, tier)
     L.stage(r5_c_bound, L, repo, spec)
+    L.stage(r6_accepted_encodes, L, repo, spec)
